@@ -154,3 +154,33 @@ Fixpoint decisions_match (d : list (bool * Z)) (obs : list (Z * Z)) : bool :=
 
 Definition C07_flood_decisions_ok (base extras : list (Z * Z)) (obs : list (Z * Z)) : bool :=
   decisions_match (flood_decisions base extras) obs.
+
+(* ---- C06: the receive time reported back, and what is recorded ----
+   rxt: the receive time given; rxt': the one reported back (the reply carries its stamp).
+   The stamp is the FIRST one at or after the given receive time that is distinct from all
+   receive stamps kept for the client: unchanged when the given one collides with none, and
+   moved by one nanosecond per collision otherwise (never by more than one nanosecond per
+   stored exchange). *)
+Fixpoint all_collide (pre : list (Z * Z)) (rxt : Z) (n : nat) : bool :=
+  match n with
+  | O => true
+  | S m => has_first (to64 rxt) pre && all_collide pre (rxt + 1) m
+  end.
+
+Definition C06_rxt_ok (pre : list (Z * Z)) (rxt rxt' : Z) : bool :=
+  (rxt <=? rxt') && (rxt' - rxt <=? Z.of_nat (length pre)) && all_collide pre rxt (Z.to_nat (rxt' - rxt)).
+
+(* post: the client's exchanges after the call (None: the client has no record).  The exchange of
+   this reply is on record with the software transmit time - unless the client was served without
+   state, which is possible only for a client that had no record - and nothing else appeared. *)
+Definition C06_post_ok (pre : list (Z * Z)) (rx tx64 : Z) (post : option (list (Z * Z))) : bool :=
+  match post with
+  | None => match pre with [] => true | _ :: _ => false end
+  | Some ents =>
+      has_pair rx tx64 ents &&
+      forallb (fun e => ((fst e =? rx) && (snd e =? tx64)) || has_pair (fst e) (snd e) pre) ents
+  end.
+
+Definition C06_handle_full_ok (pre : list (Z * Z)) (q : request) (rxt now : Z)
+  (org rx tx : Z) (rxt' txt' : Z) (post : option (list (Z * Z))) : bool :=
+  C06_handle_ok pre q rxt now org rx tx rxt' txt' && C06_rxt_ok pre rxt rxt' && C06_post_ok pre rx (to64 txt') post.
